@@ -14,8 +14,8 @@ import impl
 import srcmod
 
 ID = "C10"
-THEOREMS = ["streamOp_untyped_identity", "streamOp_untyped_no_internal", "follow_noInt", "checkAst_noInt", "follow_untyped", "methodCall_untyped", "follow_name", "follow_const", "follow_lambda", "fillLoop_complete"]
-LEANCHECKER_MODULES = ["Fadl.Props.C10Full", "Fadl.Props.C10NoInt", "Fadl.Props.C10"]  # re-checked by leanchecker in the thorough tier
+THEOREMS = ["follow_fuel_irrelevant", "streamOp_untyped_identity", "streamOp_untyped_no_internal", "follow_noInt", "checkAst_noInt", "follow_untyped", "methodCall_untyped", "follow_name", "follow_const", "follow_lambda", "fillLoop_complete"]
+LEANCHECKER_MODULES = ["Fadl.Props.FuelMono", "Fadl.Props.C10Full", "Fadl.Props.C10NoInt", "Fadl.Props.C10"]  # re-checked by leanchecker in the thorough tier
 RULE = (
     "single-parameter lambdas over names (pool includes value, id, attr, ctx, lineno, elts, args, func, keys, body, "
     "slice), attributes, calls with positional / keyword / starred arguments, subscripts (constant, variable, negative, "
